@@ -331,6 +331,7 @@ pub fn run(ctx: &Ctx) -> Evidence {
             let strat = crate::props::cpu::seq_strategy(50, 0);
             let mut edges = 0u64;
             let mut outside: Option<String> = None;
+            let mut broken: Option<String> = None;
             for _ in 0..n_prog / 16 {
                 let c = match strat.new_tree(&mut runner) {
                     Ok(t) => t.current(),
@@ -355,19 +356,40 @@ pub fn run(ctx: &Ctx) -> Evidence {
                     if c.modes >> 1 & 1 == 1 && e % 97 == 5 {
                         m.trigger_key_edge_interrupt();
                     }
+                    // the continue key is documented as "Stopped -> Running" and nothing else: pressed at
+                    // arbitrary edges of a running machine it must not disturb the sequencer
+                    if c.modes >> 2 & 1 == 1 && (e as u64 + c.ram_seed) % 11 == 3 {
+                        m.trigger_key_continue();
+                    }
                     m.trigger_clock_edge();
                     edges += 1;
                     let s = m.verif_snapshot();
+                    // the statement's invariant on the real trace itself: inside the routine of the opcode in the
+                    // instruction register
+                    if m.state() == State::Running && broken.is_none() {
+                        if (s.micro_address >> 5) as u8 != s.instruction_register >> 4 {
+                            broken = Some(format!("program {} (key interrupts: {}, continue presses: {}) at edge {}: micro-address {:03X} is outside the routine of the instruction register {:02X}", hex(&code), c.modes >> 1 & 1, c.modes >> 2 & 1, e, s.micro_address, s.instruction_register));
+                        }
+                    }
                     if m.state() == State::Running && !seen.contains_key(&(s.micro_address, s.instruction_register)) && outside.is_none() {
                         outside = Some(format!("program {} reaches control state {:03X}/{:02X} which the forced graph exploration never produced", hex(&code), s.micro_address, s.instruction_register));
                     }
                 }
             }
-            (edges, outside)
+            (edges, outside, broken)
         });
         let mut traced = 0u64;
-        for (e, o) in res {
+        for (_, _, b) in &res {
+            if let Some(b) = b {
+                ev.violation("trace", "c09:leaves-routine-of-fetched-opcode", b.clone(), json!({"part": "concrete-trace"}));
+            }
+        }
+        let broken_any = res.iter().any(|(_, _, b)| b.is_some());
+        for (e, o, _) in res {
             traced += e;
+            if broken_any {
+                continue;
+            }
             if let Some(o) = o {
                 println!("HARNESS-ERROR property=C09 {}", o);
                 println!("INCONCLUSIVE property=C09 the graph extraction does not cover real execution");
